@@ -119,6 +119,9 @@ func c03(c *Check) {
 	c.Rule("C03/hook-failure-not-swallowed", "CallEVMWithData: ApplyMessage errors reject; a PostTxProcessing error marks the response failed; every success return is dominated by !res.Failed()", 4)
 	evmHookRule(c, "C03/hook-failure-not-swallowed")
 
+	c.Rule("C03/only-packet-contract-events", "frozen table (shared with C04/hook): a packet commitment is created only for a PacketSent log emitted by the packet contract address itself — a look-alike event from another contract would create a deliverable packet with nothing escrowed", 5)
+	c.FrozenFiltered("C04", "C03/only-packet-contract-events", func(fn string) bool { return strings.HasSuffix(fn, "Hooks.PostTxProcessing") })
+
 	c.Rule("C03/ack-outcome", "msg server Acknowledgement: after a verified ack, exactly one of setAckStatus(…,1) [code==0] / setAckStatus(…,2) [code!=0], then sendPacketFeeToRelayer and OnAcknowledgePacket, each once, each with its error propagated, all dominated by AcknowledgePacket==nil and both decodes", 20)
 	ackSpec(c, "C03/ack-outcome")
 
